@@ -43,7 +43,8 @@ def tasks(tier):
     for hd, sl, e in itertools.product([None, "call"], ["call", None], Q4 + POL):
         cfg = dict(M=M, alphabet=ALPHA, abort=True, handler=hd, handler_menu=["SLEEP"],
                    sleeper=sl, overshoot=[0, "KeyboardInterrupt", "CancelledError", "SystemExit"],
-                   over_free=True, max_unknown=None, before_sleep="call")
+                   over_free=True, max_unknown=None, before_sleep="call", strat_menu=[1, 0],
+                   strat_free=True)
         out.append({"family": "abort-cancel", "cfg": cfg, "entry": e, "bound": 1, "weight": 3})
     for e in POL0:
         cfg = dict(M=1, alphabet=ALPHA, abort=True)
